@@ -548,7 +548,58 @@ def run_shared_callback(mode, hold_at):
   return bad
 
 
+def run_consecutive_records():
+  """One long-lived callback object, consecutive records that agree in dut / station / times and differ only in another
+  field the file-name pattern uses: each goes to the file named by ITS fields."""
+  import copy, shutil, tempfile  # pylint: disable=g-import-not-at-top,multiple-imports
+  cb, jf, aw = mods()
+  bad = []
+  n = 0
+  for pat_name, pattern, field in (('brace', '{dut_id}.{metadata[test_name]}.json', 'name'),
+                                   ('percent-outcome', '%(dut_id)s.%(outcome)s.json', 'outcome'),
+                                   ('callable', lambda dut_id, metadata, **kw: '%s.%s.cb' % (dut_id, metadata['test_name']), 'name')):
+    root = tempfile.mkdtemp(prefix='c17cr_', dir=os.environ.get('VERIF_SCRATCH') or None)
+    try:
+      rec1 = make_record('small')
+      rec2 = copy.copy(rec1)
+      if field == 'name':
+        rec2.metadata = dict(rec1.metadata, test_name='othername')
+      else:
+        from openhtf.core import test_record  # pylint: disable=g-import-not-at-top
+        rec2.outcome = test_record.Outcome.FAIL if rec1.outcome is not test_record.Outcome.FAIL else test_record.Outcome.PASS
+      full = (lambda **kw: os.path.join(root, pattern(**kw))) if callable(pattern) else os.path.join(root, pattern)
+      o = jf.OutputToJSON(full, sort_keys=True)
+      want = {}
+      for rec in (rec1, rec2, rec1):
+        n += 1
+        o(rec)
+        exp = ''.join(o.serialize_test_record(rec)).encode()
+        name = o.create_file_name(rec) if False else None
+        from openhtf.util import data as _data  # pylint: disable=g-import-not-at-top
+        d = _data.convert_to_base_types(rec)
+        fname = pattern(**d) if callable(pattern) else (pattern.format(**d) if '{' in pattern else pattern % d)
+        want[fname] = exp
+        for fn_, content in want.items():
+          path = os.path.join(root, fn_)
+          got = open(path, 'rb').read() if os.path.exists(path) else None
+          if got != content:
+            bad.append(('consecutive:%s' % pat_name, 'pattern %s, records differing only in %s through one callback object: file %s holds %s, '
+                        'expected the %d-byte serialization of the record named so' % (pat_name, field, fn_, 'nothing' if got is None else '%d bytes' % len(got), len(content))))
+            break
+      extra = sorted(set(os.listdir(root)) - set(want))
+      if extra:
+        bad.append(('consecutive:%s:extra' % pat_name, 'unexpected files %r' % (extra,)))
+    finally:
+      shutil.rmtree(root, ignore_errors=True)
+  return n, bad
+
+
 def run_shared(rep):
+  n, bad = run_consecutive_records()
+  for sig, what in bad:
+    rep.merge_violations([(sig, what, {'consecutive': True})])
+  rep.add_part('one callback object, consecutive records with colliding times', evaluations=n, distinct_nontrivial=n, exhaustive=True,
+               samples=[{'patterns': ['{dut_id}.{metadata[test_name]}', '%(dut_id)s.%(outcome)s', 'callable'], 'records': 3}])
   n = 0
   for mode in ('iter_text', 'iter_bytes'):
     for hold_at in (0, 1, 2):
@@ -602,6 +653,11 @@ def run(tier):
 
 
 def replay(art):
+  if art.get('replay', {}).get('consecutive'):
+    n, bad = run_consecutive_records()
+    for b in bad:
+      print('VIOLATED', b)
+    return 1 if bad else 0
   if 'shared_case' in art.get('replay', {}):
     bad = run_shared_callback(*art['replay']['shared_case'])
     for b in bad:
